@@ -201,6 +201,21 @@ def main():
                 onp.all(tensor_jacobian_product(lambda p_, z, w: z * z * w, 1)(p, a, b, vv_) == 2.0 * a * b * vv_),
                 onp.all(_ggn_(lambda p_, z: z * p_, lambda y: anp.sum(y * y), 1)(p, a)(vv_) == 2.0 * p * p * vv_),
             ]
+            # tensor-Jacobian products with tensors of rank 1, 2 against outputs of rank 1..3 (square leading axes included)
+            from autograd import vector_jacobian_product as _vjp_op
+            for oshape in ((3,), (3, 3), (3, 3, 2), (2, 3, 3), (3, 2)):
+                cf_ = onp.arange(1.0, 1.0 + int(onp.prod(oshape))).reshape(oshape)
+                hmap = lambda z, cf_=cf_: cf_ * anp.sum(z * z) + anp.sum(z) * cf_ * cf_        # noqa: E731   output shape oshape
+                Jz = jacobian(hmap)(a)
+                for trank in (1, 2):
+                    if trank > len(oshape):
+                        continue
+                    tsh = oshape[:trank]
+                    tv = onp.arange(2.0, 2.0 + int(onp.prod(tsh))).reshape(tsh)
+                    want = onp.tensordot(tv, Jz, trank)
+                    checks.append(neg(lambda hmap=hmap, tv=tv, want=want: onp.shape(tensor_jacobian_product(hmap)(a, tv)) == onp.shape(want)
+                                      and onp.all(tensor_jacobian_product(hmap)(a, tv) == want)))
+                    checks.append(neg(lambda hmap=hmap, tv=tv, want=want: onp.all(_vjp_op(hmap)(a, tv) == want)))
             # selection by name on bound methods, class methods and static methods (the bound parameter is not an argument)
             class _M:
                 def meth(self, a_, b_):
